@@ -336,12 +336,16 @@ type TeletextOptions struct {
 func ReadFromTeletext(r io.Reader, o TeletextOptions) (s *Subtitles, err error) {
 	// Init
 	s = &Subtitles{}
-	var dmx = astits.NewDemuxer(context.Background(), newTeletextReader(r))
+	var rd, tr = newTeletextReader(r)
+	var dmx = astits.NewDemuxer(context.Background(), rd)
 
 	// Get the teletext PID
 	var pid uint16
 	if pid, err = teletextPID(dmx, o); err != nil {
-		if err != ErrNoValidTeletextPID {
+		if err == ErrNoValidTeletextPID && tr.err != nil {
+			// The stream didn't end, reading it failed
+			err = fmt.Errorf("astisub: reading failed: %w", tr.err)
+		} else if err != ErrNoValidTeletextPID {
 			err = fmt.Errorf("astisub: getting teletext PID failed: %w", err)
 		}
 		return
@@ -361,6 +365,11 @@ func ReadFromTeletext(r io.Reader, o TeletextOptions) (s *Subtitles, err error) 
 		// Fetch next data
 		if d, err = dmx.NextData(); err != nil {
 			if err == astits.ErrNoMorePackets {
+				// The stream didn't end, reading it failed
+				if tr.err != nil {
+					err = fmt.Errorf("astisub: reading failed: %w", tr.err)
+					return
+				}
 				err = nil
 				break
 			}
@@ -407,9 +416,12 @@ func ReadFromTeletext(r io.Reader, o TeletextOptions) (s *Subtitles, err error) 
 }
 
 // teletextReader makes sure every read fills the provided buffer unless the underlying reader is done,
-// since the demuxer detects the packet size and syncs using single reads
+// since the demuxer detects the packet size and syncs using single reads.
+// It also stores the first error returned by the underlying reader since the demuxer handles
+// io.ErrUnexpectedEOF as the end of the stream.
 type teletextReader struct {
-	r io.Reader
+	err error
+	r   io.Reader
 }
 
 // teletextReadSeeker is a teletextReader that can be rewinded
@@ -418,16 +430,16 @@ type teletextReadSeeker struct {
 	io.Seeker
 }
 
-func newTeletextReader(r io.Reader) io.Reader {
-	// The demuxer peeks into a *bufio.Reader, nothing to do
-	if _, ok := r.(*bufio.Reader); ok {
-		return r
-	}
+func newTeletextReader(r io.Reader) (io.Reader, *teletextReader) {
 	tr := &teletextReader{r: r}
-	if s, ok := r.(io.Seeker); ok {
-		return &teletextReadSeeker{teletextReader: tr, Seeker: s}
+	// The demuxer peeks into a *bufio.Reader instead of rewinding it
+	if _, ok := r.(*bufio.Reader); ok {
+		return bufio.NewReader(tr), tr
 	}
-	return tr
+	if s, ok := r.(io.Seeker); ok {
+		return &teletextReadSeeker{teletextReader: tr, Seeker: s}, tr
+	}
+	return tr, tr
 }
 
 // Read implements the io.Reader interface
@@ -436,6 +448,9 @@ func (r *teletextReader) Read(p []byte) (n int, err error) {
 		var nn int
 		nn, err = r.r.Read(p[n:])
 		n += nn
+	}
+	if err != nil && err != io.EOF && r.err == nil {
+		r.err = err
 	}
 	return
 }
